@@ -141,6 +141,8 @@ type NodeOpts struct {
 	// MinGasPrices: the node's minimum-gas-prices setting (app.toml; und writes 25.0nund by default). Node-local:
 	// only this node's mempool admission looks at it.
 	MinGasPrices string `json:"min_gas_prices,omitempty"`
+	// TZOffsetH: the machine's time zone (hours east of UTC; time.Local while this node executes). Node-local.
+	TZOffsetH int `json:"tz_offset_h,omitempty"`
 }
 
 type Account struct {
